@@ -35,7 +35,7 @@ def build(ctx):
     if rc != 0:
         ctx.broken.append(("correspondence", "shroud-run-cap", out[-1200:]))
         return None
-    srcs = ["driver.cpp", "cap.cpp", "wrapcap.cpp", "wrapObj.cpp", "wrapOther.cpp", "utilcap.cpp"]
+    srcs = ["driver.cpp", "cap.cpp", "wrapcap.cpp", "wrapObj.cpp", "wrapOther.cpp", "utilcap.cpp", "wrapalpha_Item.cpp", "wrapbeta_Item.cpp", "wrapcap_beta.cpp"]
     p = subprocess.run(["g++", "-std=c++11", "-g", "-O0", "-fsanitize=address", "-fno-omit-frame-pointer", "-I", d, "-o", "drv"] + srcs,
                        cwd=d, capture_output=True, text=True)
     if p.returncode != 0:
@@ -54,7 +54,7 @@ def gen_seq(rng, allow_bad):
         r = rng.random()
         live = [i for i, h in enumerate(hs) if not h["released"]]
         if r < 0.3 or not hs:
-            k = rng.choice([1, 1, 2, 3, 4, 5, 6, 7, 8])
+            k = rng.choice([1, 1, 2, 3, 4, 5, 6, 7, 8, 9, 10, 10])
             mops.append("N:%d" % k)
             lines.append("new %d %d" % (k, rng.randint(0, 9)))
             hs.append({"kind": k, "owned": True, "released": False})
@@ -78,7 +78,7 @@ def gen_seq(rng, allow_bad):
             lines.append("method %d" % h)
         elif r < 0.7 and live:
             # (the destructor wrapper on a pool object, kind 5, is a caller error like on a borrowed one)
-            cand = [i for i in live if hs[i]["kind"] in (1, 2) and (hs[i]["owned"] or allow_bad)]
+            cand = [i for i in live if hs[i]["kind"] in (1, 2, 9, 10) and (hs[i]["owned"] or allow_bad)]
             if not cand:
                 continue
             h = rng.choice(cand)
@@ -117,6 +117,9 @@ def build_py(ctx):
     shutil.copytree(CAP, d)
     y = yaml.safe_load(open(os.path.join(d, "cap.yaml")))
     y["options"] = {"wrap_python": True, "wrap_lua": False, "wrap_c": False, "wrap_fortran": False, "PY_array_arg": "list"}
+    # (two classes of the same name in different namespaces do not compile in the Python wrapper: C05's finding; the Python runs
+    #  do not use them)
+    y["declarations"] = [d for d in y["declarations"] if not str(d.get("decl", "")).startswith("namespace ")]
     yaml.safe_dump(y, open(os.path.join(d, "cap.yaml"), "w"), sort_keys=False)
     od = os.path.join(d, "pyout")
     rc, out = corpus.run_shroud(os.path.join(d, "cap.yaml"), od)
